@@ -1,0 +1,14 @@
+//go:build verif
+
+package wallet
+
+// VerifEncodeBIP39Phrase exposes encodeBIP39Phrase to the verification harness.
+func VerifEncodeBIP39Phrase(entropy *[16]byte) string { return encodeBIP39Phrase(entropy) }
+
+// VerifDecodeBIP39Phrase exposes decodeBIP39Phrase to the verification harness.
+func VerifDecodeBIP39Phrase(entropy *[16]byte, phrase string) error {
+	return decodeBIP39Phrase(entropy, phrase)
+}
+
+// VerifBIP39WordList returns a copy of the word list used by the encoder.
+func VerifBIP39WordList() []string { return append([]string(nil), bip39EnglishWordList...) }
